@@ -60,6 +60,16 @@ pub enum Op {
     /// take a child of a modelled container (tsrun_get / tsrun_array_get), release the parent
     /// handle, churn allocations so that collections run, then read the child again
     DetachChild(u8, u16, u8, u8),
+    /// `Object(x)` / a method that returns its receiver: the call result is a second handle to an
+    /// existing object; the original handle is released, allocation churn follows, and the result
+    /// handle alone must keep the object alive (ctx, container selector, via method, churn)
+    DetachAlias(u8, u16, bool, u8),
+    /// a native function whose callback writes a property on its own function object, called
+    /// through tsrun_call (ctx, extra arguments)
+    CallSelfWriter(u8, u8),
+    /// host function A (calls its first argument through tsrun_call) applied to host function B:
+    /// directly through tsrun_call, or from a script through `[B].map(A)`-like natives (ctx, how)
+    CallNativeWithNative(u8, u8),
 }
 
 #[derive(Clone, Debug, Serialize, Deserialize)]
@@ -88,7 +98,7 @@ const DOCS: [&str; 11] = [
     r#"{"k":1}"#,
     r#"{"deep":{"deep":{"deep":[1,[2,[3]]]}}}"#,
 ];
-const PROGRAMS: [(&str, Option<&str>); 11] = [
+const PROGRAMS: [(&str, Option<&str>); 12] = [
     ("JSON.stringify(globalThis.hv === undefined ? null : globalThis.hv)", None),
     ("import { order } from \"tsrun:host\"; const r: any = await order({ k: 1 }); JSON.stringify(r === undefined ? null : r)", None),
     ("import { order } from \"tsrun:host\"; const a: any = await order({ k: 1 }); const junk: any[] = []; for (let i = 0; i < 40; i++) { junk.push({ i: i, s: \"j\" + i }); } const b: any = await order({ k: 2 }); JSON.stringify([a === undefined ? null : a, b === undefined ? null : b])", None),
@@ -99,6 +109,7 @@ const PROGRAMS: [(&str, Option<&str>); 11] = [
     ("function f(): any { throw new TypeError(\"boom\"); } f();", None),
     ("import { x } from \"./dep.ts\"; x + 1", Some("/mod/imp.ts")),
     ("globalThis.keep = { big: [1, 2, 3], s: \"kept\" }; for (let i = 0; i < 30; i++) { const t = { i: i }; } JSON.stringify(globalThis.keep)", None),    ("const sy = Symbol(\"t\"); globalThis.symobj = { a: 1, [sy]: 2, b: { [Symbol.iterator]: 3, c: 4 } }; globalThis.symonly = { [sy]: 1 }; Object.keys(globalThis.symobj).join(\",\")", None),
+    ("function g(): any { throw new RangeError(\"x\" + \"é\".repeat(150) + \"日\".repeat(40)); } g();", None),
 ];
 
 #[derive(Clone)]
@@ -139,6 +150,9 @@ struct Exec<'a> {
 
 thread_local! {
     static CB_MODE: std::cell::Cell<u8> = const { std::cell::Cell::new(0) };
+    /// handle of the function the host is calling right now (for callbacks that write to their
+    /// own function object, e.g. a call counter)
+    static SELF_FN: std::cell::Cell<*mut TsRunValue> = const { std::cell::Cell::new(ptr::null_mut()) };
 }
 
 /// Native callback used by histories. userdata encodes the behaviour.
@@ -152,7 +166,30 @@ extern "C" fn native_cb(
 ) -> *mut TsRunValue {
     let mode = userdata as usize as u8;
     unsafe {
-        match mode % 6 {
+        match mode % 8 {
+            7 => {
+                // call the first argument (possibly another host function) through the API
+                if argc > 0 && !args.is_null() && tsrun_is_function(*args) {
+                    let saved = SELF_FN.with(|c| c.replace(ptr::null_mut()));
+                    let r = tsrun_call(ctx, *args, ptr::null_mut(), ptr::null_mut(), 0);
+                    SELF_FN.with(|c| c.set(saved));
+                    if r.value.is_null() && !error_out.is_null() {
+                        *error_out = c"inner call failed".as_ptr();
+                    }
+                    r.value
+                } else {
+                    tsrun_number(ctx, -1.0)
+                }
+            }
+            6 => {
+                // keep a call counter on the function object that is being called
+                let me = SELF_FN.with(|c| c.get());
+                let n = tsrun_number(ctx, 1.0 + argc as f64);
+                if !me.is_null() && tsrun_is_function(me) {
+                    tsrun_set(ctx, me, c"calls".as_ptr(), n);
+                }
+                n
+            }
             0 => ptr::null_mut(), // returns NULL (undefined)
             1 => {
                 if !error_out.is_null() {
@@ -870,7 +907,9 @@ impl<'a> Exec<'a> {
                         let ti = self.pick(c, *this);
                         let mut args: Vec<*mut TsRunValue> = (0..(*n % 4)).map(|k| self.ptr_of(self.pick(c, f.wrapping_add(k as u16 + 1)))).collect();
                         let ap = if args.is_empty() { ptr::null_mut() } else { args.as_mut_ptr() };
+                        SELF_FN.with(|c| c.set(self.ptr_of(fi)));
                         let r = tsrun_call(self.ctxs[c].ptr, self.ptr_of(fi), self.ptr_of(ti), ap, args.len());
+                        SELF_FN.with(|c| c.set(ptr::null_mut()));
                         let p = self.value_result(c, r, "tsrun_call", fi.is_none());
                         self.push_handle(p, c, None);
                     }
@@ -879,7 +918,10 @@ impl<'a> Exec<'a> {
                     if let Some(c) = self.live_ctx(*c) {
                         self.recheck_error(c);
                         let oi = self.pick(c, *o);
-                        let name = ["toString", "slice", "join", "nope", "hasOwnProperty"][*m as usize % 5];
+                        let long_a = "é".repeat(140);
+                        let long_b = format!("x{}", "é".repeat(140));
+                        let long_c = format!("ab{}", "日".repeat(100));
+                        let name = ["toString", "slice", "join", "nope", "hasOwnProperty", long_a.as_str(), long_b.as_str(), long_c.as_str()][*m as usize % 8];
                         let np = self.c(name);
                         let r = tsrun_call_method(self.ctxs[c].ptr, self.ptr_of(oi), np, ptr::null_mut(), 0);
                         let p = self.value_result(c, r, "tsrun_call_method", oi.is_none());
@@ -1198,6 +1240,146 @@ impl<'a> Exec<'a> {
                         }
                     }
                 }
+                Op::CallNativeWithNative(c, how) => {
+                    if let Some(c) = self.live_ctx(*c) {
+                        self.recheck_error(c);
+                        let ctx = self.ctxs[c].ptr;
+                        let na = self.c("callsarg");
+                        let nb = self.c("plain");
+                        let ra = tsrun_native_function(ctx, na, native_cb, 1, 7usize as *mut c_void);
+                        let fa = self.value_result(c, ra, "tsrun_native_function", false);
+                        let rb = tsrun_native_function(ctx, nb, native_cb, 0, 6usize as *mut c_void);
+                        let fb = self.value_result(c, rb, "tsrun_native_function", false);
+                        if fa.is_null() || fb.is_null() {
+                            return;
+                        }
+                        let got = if how % 2 == 0 {
+                            // A(B) through the API
+                            let mut args = [fb];
+                            let r = tsrun_call(ctx, fa, ptr::null_mut(), args.as_mut_ptr(), 1);
+                            self.value_result(c, r, "tsrun_call", false)
+                        } else {
+                            // [B].map(A): A is invoked by a native, B by A
+                            let arr = tsrun_array_new(ctx);
+                            if arr.value.is_null() {
+                                return;
+                            }
+                            tsrun_array_push(ctx, arr.value, fb);
+                            let mp = self.c("map");
+                            let mut args = [fa];
+                            let r = tsrun_call_method(ctx, arr.value, mp, args.as_mut_ptr(), 1);
+                            let mapped = self.value_result(c, r, "tsrun_call_method", false);
+                            let first = if mapped.is_null() { ptr::null_mut() } else { tsrun_array_get(ctx, mapped, 0).value };
+                            if !mapped.is_null() {
+                                tsrun_value_free(mapped);
+                            }
+                            tsrun_value_free(arr.value);
+                            first
+                        };
+                        let n = if got.is_null() { f64::NAN } else { tsrun_get_number(got) };
+                        if n != 1.0 {
+                            let err = self.ctxs[c].last_error_text.clone();
+                            self.fail("host_function_called_through_the_api_got_wrong_callback", format!("result {} expected 1", n), json!({"how": how % 2, "last_error": err}));
+                        }
+                        if !got.is_null() {
+                            tsrun_value_free(got);
+                        }
+                        self.forget_error(c);
+                        self.push_handle(fa, c, None);
+                        self.push_handle(fb, c, None);
+                        self.rep.bump("host_function_called_by_host_function", 1);
+                    }
+                }
+                Op::CallSelfWriter(c, extra) => {
+                    if let Some(c) = self.live_ctx(*c) {
+                        self.recheck_error(c);
+                        let ctx = self.ctxs[c].ptr;
+                        let np = self.c("selfwriter");
+                        let r = tsrun_native_function(ctx, np, native_cb, 0, 6usize as *mut c_void);
+                        let f = self.value_result(c, r, "tsrun_native_function", false);
+                        if f.is_null() {
+                            return;
+                        }
+                        let argc = (*extra % 3) as usize;
+                        let mut args: Vec<*mut TsRunValue> = (0..argc).map(|k| tsrun_number(ctx, k as f64)).collect();
+                        let ap = if args.is_empty() { ptr::null_mut() } else { args.as_mut_ptr() };
+                        SELF_FN.with(|c| c.set(f));
+                        let r = tsrun_call(ctx, f, ptr::null_mut(), ap, argc);
+                        SELF_FN.with(|c| c.set(ptr::null_mut()));
+                        let rv = self.value_result(c, r, "tsrun_call", false);
+                        let kp = self.c("calls");
+                        let g = tsrun_get(ctx, f, kp);
+                        let want = 1.0 + argc as f64;
+                        let seen = if g.value.is_null() { f64::NAN } else { tsrun_get_number(g.value) };
+                        let ret = if rv.is_null() { f64::NAN } else { tsrun_get_number(rv) };
+                        if seen != want || ret != want {
+                            let err = self.ctxs[c].last_error_text.clone();
+                            if std::env::var("TSIM_C17_TRACE").is_ok() {
+                                eprintln!("selfwriter: rv null {} g null {} err {:?}", rv.is_null(), g.value.is_null(), err);
+                            }
+                            self.fail("callback_write_to_its_own_function_object_lost", format!("property {} returned {} expected {}", seen, ret, want), json!({"last_error": err}));
+                        }
+                        for a in args.drain(..) {
+                            tsrun_value_free(a);
+                        }
+                        if !g.value.is_null() {
+                            tsrun_value_free(g.value);
+                        }
+                        if !rv.is_null() {
+                            tsrun_value_free(rv);
+                        }
+                        self.forget_error(c);
+                        self.push_handle(f, c, None);
+                        self.rep.bump("callback_wrote_to_its_own_function_object", 1);
+                    }
+                }
+                Op::DetachAlias(c, h, via_method, churn) => {
+                    if let Some(c) = self.live_ctx(*c) {
+                        self.recheck_error(c);
+                        let ctx = self.ctxs[c].ptr;
+                        let cands: Vec<usize> = (0..self.hs.len())
+                            .filter(|i| !self.hs[*i].freed && self.hs[*i].ctx == c && self.hs[*i].model.as_ref().map(|m| m.is_object() || m.is_array()).unwrap_or(false))
+                            .collect();
+                        if cands.is_empty() {
+                            return;
+                        }
+                        let pi = cands[*h as usize % cands.len()];
+                        let model = self.hs[pi].model.clone();
+                        let alias = if *via_method {
+                            // valueOf of a plain object or array returns its receiver
+                            let np = self.c("valueOf");
+                            let r = tsrun_call_method(ctx, self.hs[pi].ptr, np, ptr::null_mut(), 0);
+                            self.value_result(c, r, "tsrun_call_method", false)
+                        } else {
+                            let np = self.c("Object");
+                            let g = tsrun_get_global(ctx, np);
+                            if g.value.is_null() {
+                                return;
+                            }
+                            let mut args = [self.hs[pi].ptr];
+                            let r = tsrun_call(ctx, g.value, ptr::null_mut(), args.as_mut_ptr(), 1);
+                            tsrun_value_free(g.value);
+                            self.value_result(c, r, "tsrun_call", false)
+                        };
+                        if alias.is_null() {
+                            return;
+                        }
+                        tsrun_value_free(self.hs[pi].ptr);
+                        self.hs[pi].freed = true;
+                        self.rep.bump("fault_original_released_while_call_result_held", 1);
+                        for j in 0..(20 + (*churn as usize % 3) * 60) {
+                            let junk = self.c(&format!("{{\"junk\":[{},{{\"j\":{}}}]}}", j, j));
+                            let jr = tsrun_json_parse(ctx, junk);
+                            if !jr.value.is_null() {
+                                tsrun_value_free(jr.value);
+                            }
+                        }
+                        self.forget_error(c);
+                        if let Some(hi) = self.push_handle(alias, c, model) {
+                            self.check_model(c, hi, "call result read after the original handle was released");
+                        }
+                    }
+                }
                 Op::SettlePromise(c, ok) => {
                     if let Some(c) = self.live_ctx(*c) {
                         self.recheck_error(c);
@@ -1233,8 +1415,8 @@ impl<'a> Exec<'a> {
 pub fn generate_history(rng: &mut Rng) -> Scn {
     let n = if rng.chance(0.6) { rng.range(5, 40) } else { rng.range(40, 200) } as usize;
     let mut ops = vec![Op::NewCtx];
-    let w: [u32; 35] = [
-        1, 1, 8, 6, 5, 5, 4, 5, 4, 8, 6, 6, 8, 2, 2, 5, 3, 2, 4, 5, 4, 7, 3, 3, 5, 5, 4, 1, 2, 1, 2, 3, 9, 4, 5,
+    let w: [u32; 38] = [
+        1, 1, 8, 6, 5, 5, 4, 5, 4, 8, 6, 6, 8, 2, 2, 5, 3, 2, 4, 5, 4, 7, 3, 3, 5, 5, 4, 1, 2, 1, 2, 3, 9, 4, 5, 4, 2, 2,
     ];
     for _ in 0..n {
         let a = (rng.next_u64() & 0xff) as u8;
@@ -1276,7 +1458,10 @@ pub fn generate_history(rng: &mut Rng) -> Scn {
             31 => Op::NullCalls(c),
             32 => Op::Answer(a, c, b, rng.chance(0.6), (d & 0xff) as u8),
             33 => Op::SettlePromise(a, c),
-            _ => Op::DetachChild(a, b, c, (d & 0xff) as u8),
+            34 => Op::DetachChild(a, b, c, (d & 0xff) as u8),
+            35 => Op::DetachAlias(a, b, c % 2 == 0, (d & 0xff) as u8),
+            36 => Op::CallSelfWriter(a, c),
+            _ => Op::CallNativeWithNative(a, c),
         });
     }
     Scn {
@@ -1308,6 +1493,9 @@ pub fn execute_history(scn: &Scn) -> RunReport {
     rep.bump("collections_injected", c.injected);
     rep.bump("probe_collection_inside_native_callback", c.collections_nested.min(1));
     let stale = tsrun::verif::take_stale_derefs();
+    if std::env::var("TSIM_C17_TRACE").is_ok() {
+        eprintln!("C17 trace: {}\nstale: {:?}", trace.replace(';', ";\n"), stale);
+    }
     if !stale.is_empty() && rep.failure.is_none() {
         rep.fail(Failure::new("stale_deref", format!("{:?}", stale[0]), json!({"n": stale.len()})));
     }
